@@ -250,8 +250,10 @@ def interesting_handles(db, limit=12):
     return pri[: limit - 2] + [0, db.last + 1]
 
 
-def gen_requests(db, mtu, groups):
-    """Yield (group, pdu)."""
+def gen_requests(db, mtu, groups, lean=False):
+    """Yield (group, pdu).  lean (thorough tier, MTUs other than the five quick ones):
+    ranged requests use the small set of boundary handles and handle triples are left
+    out -- those dimensions do not interact with the MTU-dependent size arithmetic."""
     rows, last = db.rows, db.last
     small = last <= 40
     hall = list(range(0, last + 2)) + [0xFFFF] if small else sorted(set(range(0, 12)) | set(range(last - 8, last + 2)) | {last // 2, 0xFFFF})
@@ -259,6 +261,8 @@ def gen_requests(db, mtu, groups):
     prot = [r['handle'] for r in rows if r['perms'] & 0xFC]
     hr = sorted({0, 1, 2, (last + 1) // 2, last, last + 1, 0xFFFF} | {h + d for h in prot[:2] for d in (-1, 0, 1)})
     hr0 = sorted({0, 1, last, 0xFFFF} | set(prot[:1]))
+    if lean:
+        hr = hr0
     types = []
     for r in rows:
         if r['type'] not in types:
@@ -324,7 +328,7 @@ def gen_requests(db, mtu, groups):
                 for b in hs:
                     yield 'multi', A.req_read_multiple([a, b], var)
             ht = hs[:4] + hs[-1:]
-            for tr in itertools.product(ht, repeat=3):
+            for tr in itertools.product(ht, repeat=3) if not lean else ():
                 yield 'multi', A.req_read_multiple(tr, var)
             nmax = (mtu - 1) // 2
             for base in hs[:3]:
@@ -498,7 +502,7 @@ def run_config(aw, st, cfg, found):
     where = f'[{kind} mtu={mtu} db={cfg["shape"]}/L={cfg["L"]}/prot={cfg["prot"]}]'
     nreq = 0
     inject, restore, case = aw.inject, aw.restore, st.case
-    for group, pdu in gen_requests(db, mtu, cfg['groups']):
+    for group, pdu in gen_requests(db, mtu, cfg['groups'], cfg.get('lean', False)):
         rep = inject(name, pdu)
         nreq += 1
         op = pdu[0] if pdu else -1
@@ -774,32 +778,34 @@ def w_indications(hists):
 def w_eatt_l2cap(arg):
     mtu, groups = arg
     st = core.Stats('eatt_l2cap')
-    aw = world()
-    db = aw.set_database(shape_spec('std', 3, None, 0))
-    name = bearer_for(aw, 'eatt', mtu, st)
-    val = next(r['handle'] for r in db.rows if r['role'] == 'chr_value')
-    probe = A.req_read(val)
     found = Found()
-    for group, x in gen_requests(db, mtu, groups):
-        if not x:
-            continue  # a zero-length SDU is not an ATT PDU
-        aw.inject(name, x, l2cap=True)
-        rep = aw.inject(name, probe, l2cap=True)
-        ok = len(rep) == 1 and A.answers(0x0A, rep[0])
-        raised = bool(aw.take_errors())
-        st.case(f'{group}{x[0]:02x}{len(x)}{ok}{raised}')
-        st.add('first_pdu_rejected', raised)
-        if not ok:
-            cls = A.classify_opcode(x[0])
-            found.add(
-                'request_after_rejected_pdu_unanswered', {'bearer': 'eatt', 'first_pdu': 'malformed_' + cls if raised else cls},
-                f'EATT: a well-formed Read Request {probe.hex()} delivered right after {x[:16].hex()} (which the receive path rejected with an exception: {raised}) got {[r.hex() for r in rep]}',
-                {'mode': 'eatt_l2cap', 'mtu': mtu, 'first': x.hex()},
-            )
-            aw.inject(name, probe, l2cap=True)  # resynchronise
-        if x[0] in MUTATING:
-            aw.restore()
-    aw.take_errors()
+    # a world of its own: L2CAP reassembly and credit state must not depend on what this
+    # worker process ran before
+    with A.AttWorld() as aw:
+        db = aw.set_database(shape_spec('std', 3, None, 0))
+        name = bearer_for(aw, 'eatt', mtu, st)
+        val = next(r['handle'] for r in db.rows if r['role'] == 'chr_value')
+        probe = A.req_read(val)
+        for group, x in gen_requests(db, mtu, groups):
+            if not x:
+                continue  # a zero-length SDU is not an ATT PDU
+            aw.take_errors()
+            aw.inject(name, x, l2cap=True)
+            raised = any(not e.startswith('loop:') for e in aw.take_errors())
+            rep = aw.inject(name, probe, l2cap=True)
+            ok = len(rep) == 1 and A.answers(0x0A, rep[0])
+            st.case(f'{group}{x[0]:02x}{len(x)}{ok}{raised}')
+            st.add('first_pdu_rejected', raised)
+            if not ok:
+                cls = A.classify_opcode(x[0])
+                found.add(
+                    'request_after_rejected_pdu_unanswered', {'bearer': 'eatt', 'first_pdu': 'malformed_' + cls if raised else cls},
+                    f'EATT: a well-formed Read Request {probe.hex()} delivered right after {x[:16].hex()} (which the receive path rejected with an exception: {raised}) got {[r.hex() for r in rep]}',
+                    {'mode': 'eatt_l2cap', 'mtu': mtu, 'first': x.hex()},
+                )
+                aw.inject(name, probe, l2cap=True)  # resynchronise
+            if x[0] in MUTATING:
+                aw.restore()
     found.flush(st)
     st.samples.append({'mtu': mtu, 'probe': probe.hex(), 'groups': list(groups)})
     return st
@@ -868,8 +874,8 @@ def request_configs(quick):
         few = sorted({1, (mtu - 4) // 2, mtu - 3, 512})
         q = mtu in QUICK_MTUS
         for bearer in ('att', 'eatt'):
-            if not q and bearer == 'eatt' and mtu % 8 != 7:
-                continue  # same size arithmetic as the fixed channel; sampled every 8th MTU
+            if not q and bearer == 'eatt' and mtu % 16 != 7:
+                continue  # same size arithmetic as the fixed channel; every 16th MTU
             for shape, npos in SHAPES.items():
                 if q:
                     n = {'many': 12 if quick else 70, 'svcs': 8 if quick else 90}.get(shape, 0)
@@ -885,7 +891,7 @@ def request_configs(quick):
                             full = prot is None and L in (1, mtu - 2)
                             groups = ALL_GROUPS if full else no_sweep if (not quick or L in (0, 1, 512)) else reads
                             pairs = full or (prot == 0 and L == 1) or (shape == 'dyn' and L == 2)
-                        cfgs.append({'shape': shape, 'L': L, 'prot': prot, 'n': n, 'mtu': mtu, 'bearer': bearer, 'groups': groups, 'pairs': pairs})
+                        cfgs.append({'shape': shape, 'L': L, 'prot': prot, 'n': n, 'mtu': mtu, 'bearer': bearer, 'groups': groups, 'pairs': pairs, 'lean': not q})
     return cfgs
 
 
@@ -1007,7 +1013,7 @@ def run(ctx: core.Context) -> int:
             'handles, all (start,end) pairs of boundary handles, handle sets of size 0..3 and floor((MTU-1)/2)(+1), offsets, attribute '
             'types incl. malformed lengths, value lengths {0,1,2,MTU-3,MTU-2,512,513}; every prefix of 19 well-formed PDUs) is sent to '
             'each database (5 shapes x value lengths at the MTU-dependent packing boundaries x one protected attribute per position) at '
-            + ('ATT_MTU in {23,24,48,185,517}' if quick else 'every ATT_MTU 23..517 (size-sensitive requests; the full set at 23,24,48,185,517)')
+            + ('ATT_MTU in {23,24,48,185,517}' if quick else 'every ATT_MTU 23..517 (size-sensitive requests with boundary ranges and handle sets of size <= 2; the full set at 23,24,48,185,517; EATT at the five and at every 16th other MTU)')
             + ' on the ATT fixed channel and on a real EATT channel; distinct = (request group, opcode, reply opcode, error code, reply size bucket). '
             'pairs: all ordered pairs of ~20-30 representative PDUs delivered back-to-back. notify: 16 API forms x value lengths x MTU x 2 bearers. '
             'indications: all sequences up to depth ' + ('5' if quick else '7') + ' over 6 operations, distinct = per-step outstanding counts + task outcomes. '
